@@ -118,7 +118,7 @@ func genPlan(t *rapid.T) graph.WrapPlan {
 	return graph.WrapPlan{
 		Early:  rapid.IntRange(0, 1).Draw(t, "early"),
 		Before: rapid.SampledFrom([]int{0, 0, 0, 1}).Draw(t, "before"),
-		After:  rapid.IntRange(0, 2).Draw(t, "after"),
+		After:  rapid.IntRange(0, 3).Draw(t, "after"),
 	}
 }
 
